@@ -32,6 +32,7 @@ func init() {
 			{ID: "C01.R12", Floor: 3, Run: columnEffectsComplete, Text: "per-column effects are not skipped: in every loop of an archetype method whose body zeroes or copies column storage, each iteration performs the effect unless the column is known zero-sized (`itemSize == 0`); no other reason to skip a column"},
 			{ID: "C01.R13", Floor: 2, Run: idsNotFabricated, Text: "component ids in per-column loops come from the table's id list (or a parameter), never from a position in the buffer list"},
 			{ID: "C01.R14", Floor: 1, Run: layoutCountFromCount, Text: "the layout count covers every registered id (= C16.R12)"},
+			{ID: "C01.R15", Floor: 2, Run: exchangeSettersReplace, Text: "generic Exchange setters replace (= C18.R17): Adds/Removes store a list that does not depend on the one stored before; an accumulating setter removes components the current configuration does not name"},
 		},
 	})
 }
